@@ -60,6 +60,11 @@ def topics_of(rng, mk, max_topics=4, max_parts=5, dup=0.05):
 def spec_msg(rng, magic=None, big=1 << 16):
     magic = rng.choice([0, 1]) if magic is None else magic
     attrs = 0 if rng.random() < 0.85 else rng.choice([8, 16, 32, 64, 128, 24])  # bits outside the codec field
+    if rng.random() < 0.03:
+        # the other values of the codec field on a message that is not a wrapper: 2 = snappy (not installed:
+        # NotImplementedError), 3 = no codec (ProtocolError), 4..7 = bit 2 set (afkak masks with 0x03).  The
+        # monitor does not judge these (codec >= 2: out-of-range); model and code must agree.
+        attrs = rng.choice([2, 3, 4, 5, 6, 7, 2 | 8, 3 | 16, 4 | 64])
     ts = None
     if magic == 1:
         ts = rng.choice([0, -1, 1500000000000, gen_int(rng, 64, p_bad=0)])
